@@ -1286,6 +1286,13 @@ fn roundtrip(w: &W, kind: Kind, with_cut: bool) -> Verdict {
         );
     }
 
+    // "read back" also means through any method of the Records iterators, not only next():
+    // 1 clean round trip in 8 gets a second pass that drives a fresh iterator through count(),
+    // last(), nth() or skip() and compares with the same method applied to the written list.
+    if cut_at.is_none() && !eintr_on && !recs.is_empty() && w.chance(1, 8) {
+        iterator_methods_pass(w, kind, &data, &recs)?;
+    }
+
     match cut_at {
         None => {
             let clause = match st {
@@ -1316,6 +1323,60 @@ fn roundtrip(w: &W, kind: Kind, with_cut: bool) -> Verdict {
         }
         Some(c) => judge_cut(w, kind, &recs, &img.boundaries, c, &p, sniffing, eintr_on),
     }
+}
+
+fn iterator_methods_pass(w: &W, kind: Kind, data: &Rc<Vec<u8>>, recs: &[Rec]) -> Verdict {
+    // K1 descriptions are compared modulo their known loss
+    let same = |a: &[Rec], b: &[Rec]| a == b || only_description_whitespace_differs(a, b).is_some();
+    w.probe("records_iterator_driven_through_methods");
+    w.clause("C11.a-roundtrip");
+    let io = IoCfg::draw(w, false);
+    w.set_budget(8 * data.len() as u64 + 1000);
+    let style = w.draw(4);
+    let k = w.draw(recs.len() as u64 + 1) as usize;
+    let sniff = w.chance(1, 3);
+    let src = SimRead::new(w, data.clone(), io, "src");
+    // returns (method description, what the iterator gave, what the written list gives)
+    let (how, got, want): (String, Vec<Rec>, Vec<Rec>) = if sniff {
+        use fastx::Record as _;
+        let to_rec = |r: &fastx::EitherRecord| Rec { id: r.id().to_string(), desc: r.desc().map(|s| s.to_string()), seq: r.seq().to_vec(), qual: r.qual().map(|q| q.to_vec()).unwrap_or_default() };
+        let mut it = fastx::EitherRecords::new(BufReader::new(src));
+        match style {
+            0 => ("EitherRecords.count()".into(), vec![Rec { id: it.count().to_string(), desc: None, seq: vec![], qual: vec![] }], vec![Rec { id: recs.len().to_string(), desc: None, seq: vec![], qual: vec![] }]),
+            1 => ("EitherRecords.last()".into(), it.last().and_then(|x| x.ok()).iter().map(to_rec).collect(), recs.last().cloned().into_iter().collect()),
+            2 => (format!("EitherRecords.nth({})", k), it.nth(k).and_then(|x| x.ok()).iter().map(to_rec).collect(), recs.get(k).cloned().into_iter().collect()),
+            _ => (format!("EitherRecords.skip({}).next()", k), it.by_ref().skip(k).next().and_then(|x| x.ok()).iter().map(to_rec).collect(), recs.get(k).cloned().into_iter().collect()),
+        }
+    } else {
+        match kind {
+            Kind::Fasta => {
+                let mut it = fasta::Reader::new(src).records();
+                match style {
+                    0 => ("fasta::Records.count()".into(), vec![Rec { id: it.count().to_string(), desc: None, seq: vec![], qual: vec![] }], vec![Rec { id: recs.len().to_string(), desc: None, seq: vec![], qual: vec![] }]),
+                    1 => ("fasta::Records.last()".into(), it.last().and_then(|x| x.ok()).iter().map(from_fa).collect(), recs.last().cloned().into_iter().collect()),
+                    2 => (format!("fasta::Records.nth({})", k), it.nth(k).and_then(|x| x.ok()).iter().map(from_fa).collect(), recs.get(k).cloned().into_iter().collect()),
+                    _ => (format!("fasta::Records.skip({}).next()", k), it.by_ref().skip(k).next().and_then(|x| x.ok()).iter().map(from_fa).collect(), recs.get(k).cloned().into_iter().collect()),
+                }
+            }
+            Kind::Fastq => {
+                let mut it = fastq::Reader::new(src).records();
+                match style {
+                    0 => ("fastq::Records.count()".into(), vec![Rec { id: it.count().to_string(), desc: None, seq: vec![], qual: vec![] }], vec![Rec { id: recs.len().to_string(), desc: None, seq: vec![], qual: vec![] }]),
+                    1 => ("fastq::Records.last()".into(), it.last().and_then(|x| x.ok()).iter().map(from_fq).collect(), recs.last().cloned().into_iter().collect()),
+                    2 => (format!("fastq::Records.nth({})", k), it.nth(k).and_then(|x| x.ok()).iter().map(from_fq).collect(), recs.get(k).cloned().into_iter().collect()),
+                    _ => (format!("fastq::Records.skip({}).next()", k), it.by_ref().skip(k).next().and_then(|x| x.ok()).iter().map(from_fq).collect(), recs.get(k).cloned().into_iter().collect()),
+                }
+            }
+        }
+    };
+    w.set_budget(u64::MAX);
+    if !same(&got, &want) {
+        return fail(
+            "C11.a-roundtrip",
+            format!("{} on a well-formed file of {} records gave {:?}, the written list gives {:?}", how, recs.len(), got.iter().map(|r| r.json()).collect::<Vec<_>>(), want.iter().map(|r| r.json()).collect::<Vec<_>>()),
+        );
+    }
+    Ok(())
 }
 
 /// Oracle for a stream cut at byte `c` (boundaries = offsets just after each record in the image).
@@ -1654,7 +1715,7 @@ pub fn property() -> Property {
             "header_split_across_reads", "cr_lf_in_different_reads", "utf8_char_split_across_reads", "first_byte_delivered_alone",
             "cut_at_record_boundary", "cut_inside_header", "cut_inside_plus_line", "cut_inside_quality", "cut_inside_sequence", "cut_inside_terminator",
             "quality_starts_with_at", "quality_starts_with_plus", "writer_buffer_smaller_than_field", "relayout_multiline_crlf",
-            "sniffer_used", "realistic_read_names", "related_fields_or_records", "description_empty_or_ending_in_whitespace", "sniff_seek_stream_not_at_zero", "magic_size_run", "wrap_equals_magic_and_sequence_reaches_it", "large_regime", "many_records_regime", "huge_regime", "cut_sweep", "all_partitions_sweep", "garbage_invalid_utf8", "garbage_rejected_with_error",
+            "sniffer_used", "records_iterator_driven_through_methods", "realistic_read_names", "related_fields_or_records", "description_empty_or_ending_in_whitespace", "sniff_seek_stream_not_at_zero", "magic_size_run", "wrap_equals_magic_and_sequence_reaches_it", "large_regime", "many_records_regime", "huge_regime", "cut_sweep", "all_partitions_sweep", "garbage_invalid_utf8", "garbage_rejected_with_error",
         ],
         quick_runs: 400_000,
         thorough_runs: 30_000_000,
